@@ -1266,6 +1266,12 @@ func (loader *Loader) resolvePathItemRef(doc *T, pathItem *PathItem, documentPat
 				}
 				return
 			}
+			if resolved.Ref != "" {
+				// the target is a reference itself: follow the chain, as for every other kind of object
+				if err = loader.resolvePathItemRef(doc, &resolved, documentPath); err != nil {
+					return
+				}
+			}
 			*pathItem = resolved
 		}
 		pathItem.Ref = ref
